@@ -162,3 +162,20 @@ def differenceUpdate (l o : List CP) : List CP :=
   (iterCodePoints true o).foldl (fun acc v => discard v acc) l
 
 end EPV.USet
+
+namespace EPV.USet
+
+/-- `UnicodeSubset(list)` constructor: `sorted(codepoints, key=code_point_order)` — stable sort by
+first code point, entries stored as given (no merging) -/
+def ofList (o : List CP) : List CP := o.mergeSort (fun a b => decide (a.lo ≤ b.lo))
+
+/-- binary in-place operators with a plain iterable (list) right operand:
+`|=`/`-=` go through `iter_code_points(other, reverse=True)`, `&=` through `self - other`,
+`^=` through `UnicodeSubset(other)` -/
+def iorList (l o : List CP) : List CP := update l o
+def isubList (l o : List CP) : List CP := differenceUpdate l o
+def iandList (l o : List CP) : List CP :=
+  (iter (differenceUpdate l o)).foldl (fun acc n => discard (.one n) acc) l
+def ixorList (l o : List CP) : List CP := ixor l (ofList o)
+
+end EPV.USet
